@@ -61,7 +61,11 @@ def run_check(prop, wt, tier, seed=0):
 
 def run_demo(wt, demo):
     env = dict(os.environ, PYTHONPATH=wt, PYTHONWARNINGS="ignore", MPLBACKEND="Agg")
-    p = sh([PY, demo], env=env, cwd=wt)
+    # the demonstrations were written to live in <worktree>/_seed/ (some locate input files relative to themselves)
+    os.makedirs(os.path.join(wt, "_seed"), exist_ok=True)
+    local = os.path.join(wt, "_seed", os.path.basename(demo))
+    shutil.copy(demo, local)
+    p = sh([PY, local], env=env, cwd=wt)
     tail = (p.stdout + p.stderr).strip().splitlines()[-1:] or [""]
     return p.returncode, tail[0][:300]
 
